@@ -39,6 +39,8 @@ def mutants(prog):
         ("expflow inverse in place", F, "ExpFlow.inverse", "copy = shallow_copy(self)", "copy = self", "T67.inverse-velocity"),
         ("expflow inverse no negation", F, "ExpFlow.inverse", "copy.scale *= -1", "copy.scale *= 1", "T67.inverse-velocity"),
         ("inv shortcut unlinked", "deepali.spatial.base", "SpatialTransform.inv", "return self.inverse(link=True, update_buffers=True)", "return self.inverse(link=False, update_buffers=False)", "via=inv"),
+        ("svf inverse: buffer registered on the original", "deepali.spatial.nonrigid", "StationaryVelocityFieldTransform.inverse", "inv.register_buffer('u', u, persistent=False)", "self.register_buffer('u', u, persistent=False)", "T67.inverse-velocity"),
+        ("svf inverse: forward exponential", "deepali.spatial.nonrigid", "StationaryVelocityFieldTransform.inverse", "u = inv.exp(v)", "u = self.exp(v)", "T67.inverse-velocity"),
     ]
     for name, mod, fn, old, new, expect in specs:
         ov = source_sub(prog, mod, fn, old, new)
